@@ -59,6 +59,9 @@ type c11Meta struct {
 	padBin   bool // the peer renders -Bin values with base64 padding
 	// binInUnion: also decode the -Bin value found in error metadata (unary harness only: symbolic base64 decoding is costly)
 	binInUnion bool
+	// repeat: the first header value and the trailer value are added a second
+	// time (equal values under one key are still separate values)
+	repeat bool
 }
 
 func c11Symbolic(padded ...bool) c11Meta {
@@ -75,9 +78,26 @@ func c11Symbolic(padded ...bool) c11Meta {
 	}
 }
 
+func (m c11Meta) wantH() []string {
+	if m.repeat {
+		return []string{m.hv1, m.hv2, m.hv1}
+	}
+	return []string{m.hv1, m.hv2}
+}
+
+func (m c11Meta) wantT() []string {
+	if m.repeat {
+		return []string{m.tv, m.tv}
+	}
+	return []string{m.tv}
+}
+
 func (m c11Meta) setOn(h, t http.Header) {
 	h.Add(m.hk, m.hv1)
 	h.Add(m.hk, m.hv2)
+	if m.repeat {
+		h.Add(m.hk, m.hv1)
+	}
 	bin := EncodeBinaryHeader(m.bin)
 	if m.padBin {
 		for len(bin)%4 != 0 {
@@ -86,18 +106,21 @@ func (m c11Meta) setOn(h, t http.Header) {
 	}
 	h.Set("X-B-Bin", bin)
 	t.Set(m.tk, m.tv)
+	if m.repeat {
+		t.Add(m.tk, m.tv)
+	}
 }
 
 func (m c11Meta) checkSplit(h, t http.Header) {
-	check(sameValues(h.Values(m.hk), m.hv1, m.hv2), "response headers arrive under headers with values and order preserved")
+	check(sameValues(h.Values(m.hk), m.wantH()...), "response headers arrive under headers with values and order preserved")
 	b, err := DecodeBinaryHeader(h.Get("X-B-Bin"))
 	check(err == nil && bytesEq(b, m.bin), "binary header values arrive unchanged (padded or unpadded rendering)")
-	check(sameValues(t.Values(m.tk), m.tv), "response trailers arrive under trailers")
+	check(sameValues(t.Values(m.tk), m.wantT()...), "response trailers arrive under trailers")
 }
 
 func (m c11Meta) checkUnion(all http.Header, what string) {
-	check(sameValues(all.Values(m.hk), m.hv1, m.hv2), what+": header values are all present, in order")
-	check(sameValues(all.Values(m.tk), m.tv), what+": trailer values are all present")
+	check(sameValues(all.Values(m.hk), m.wantH()...), what+": header values are all present, in order")
+	check(sameValues(all.Values(m.tk), m.wantT()...), what+": trailer values are all present")
 	if m.binInUnion {
 		b, err := DecodeBinaryHeader(all.Get("X-B-Bin"))
 		check(err == nil && bytesEq(b, m.bin), what+": binary values arrive unchanged (padded or unpadded rendering)")
@@ -154,6 +177,7 @@ func HarnessC11ServerStream() {
 	fail := nondetBool("fail")
 	sameKey := fail && nondetBool("errorMetaSharesTrailerKey")
 	m := c11Symbolic()
+	m.repeat = !sameKey && nondetBool("repeatedValues")
 	var seenReq []string
 	handler := NewServerStreamHandler("/pkg.Svc/Method", func(ctx context.Context, req *Request[[]byte], s *ServerStream[[]byte]) error {
 		seenReq = req.Header().Values(m.reqK)
@@ -197,7 +221,7 @@ func HarnessC11ServerStream() {
 			if sameKey {
 				vals := ce.Meta().Values(m.tk)
 				check(containsStr(vals, m.tv) && containsStr(vals, "meta") && len(vals) == 2, "a trailer and error metadata under the same key both reach the client")
-				check(sameValues(ce.Meta().Values(m.hk), m.hv1, m.hv2), "error metadata: header values are all present, in order")
+				check(sameValues(ce.Meta().Values(m.hk), m.wantH()...), "error metadata: header values are all present, in order")
 			} else {
 				m.checkUnion(ce.Meta(), "error metadata")
 			}
